@@ -9,7 +9,7 @@ out, k, sid = sys.argv[1], sys.argv[2], sys.argv[3]
 race = "--race" in sys.argv
 wt = "/tmp/confirm-" + sid
 def sh(cmd, cwd=None, check=False):
-    p = subprocess.run(cmd, shell=True, cwd=cwd, env=env, capture_output=True, text=True)
+    p = subprocess.run(cmd, shell=True, cwd=cwd, env=env, capture_output=True, text=True, errors="replace")
     if check and p.returncode != 0:
         print(p.stdout[-2000:], p.stderr[-2000:]); raise SystemExit("failed: " + cmd)
     return p
